@@ -109,6 +109,11 @@ def structures(ctx):
     for r_ in rb[::2]:
         bb = C.add_altloc(bb, r_, delta=(-250, 300, 200))
     out.append(("frag-1HPX-AB+altlocs", aa + [C.TER] + bb + [C.TER]))
+    # an inter-chain disulfide between cysteines that carry the same residue number (symmetric bridge of a homodimer)
+    ss = C.chain_lines("3SGB", "E", 12, 4) + [C.TER] + C.rename_chain(C.chain_lines("3SGB", "E", 32, 4), "E", "F") + [C.TER]
+    n1 = [C.resid(ln)[1] for ln in ss if C.is_atom(ln) and ln[21] == "E" and ln[17:20] == "CYS"][0]
+    n2 = [C.resid(ln)[1] for ln in ss if C.is_atom(ln) and ln[21] == "F" and ln[17:20] == "CYS"][0]
+    out.append(("disulfide-same-number", C.shift_numbers(ss, n1 - n2, "F")))
     e = C.chain_lines("3SGB", "E", 170, 30)     # contains 192A/192B-like insertion codes? (kept as is)
     i = C.chain_lines("3SGB", "I", 0, 20)
     out.append(("frag-3SGB-EI", e + [C.TER] + i + [C.TER]))
